@@ -60,11 +60,11 @@ Theorem run_op_eff : forall fuel o h,
 Proof.
   intros fuel o h HI Hef Hpre. destruct fuel as [|f]; [cbn; exact I|].
   rewrite run_op_S. unfold bind at 1.
-  assert (Hlog : exists h1, (match o with ONop => ret tt | _ => log_op o end) h = Ok tt h1 /\ hinv [] h1 /\
+  assert (Hlog : exists h1, (match o with ONop | OFrameRef _ | OFrameUnref _ => ret tt | _ => log_op o end) h = Ok tt h1 /\ hinv [] h1 /\
                             wins h1 = wins h /\ nextw h1 = nextw h /\ (forall x y, anc h x y -> anc h1 x y)).
   { destruct o; try (eexists; split; [reflexivity|]; split; [apply hinv_log; exact HI|]; split; [reflexivity|]; split; [reflexivity|];
                      intros x0 y0 Ha; eapply anc_same_wins; [|exact Ha]; reflexivity).
-    exists h. split; [reflexivity|]. auto. }
+    all: (exists h; split; [reflexivity|]; auto). }
   destruct Hlog as [h1 [Hrun [HI1 [Hw1 [Hnw1 Hanc1]]]]]. rewrite Hrun.
   assert (Fw1 : forall a, findw h1 a = findw h a) by (intro a; unfold findw; rewrite Hw1; reflexivity).
   assert (Hst : forall h', stable h1 h' -> stable h h').
@@ -94,8 +94,8 @@ Proof.
   - (* OUnref *)
     rewrite <- Fw1 in Hpre. destruct (live_some h1 w Hpre) as [c Hw].
     destruct (life_ok f) as [Hun _]. destruct (life_fate f) as [Huf _].
-    pose proof (Hun [] h1 w HI1 (detached_nil h1) Hpre (fun x => x) h1 eq_refl) as Hu.
-    pose proof (Huf [] h1 w c HI1 (detached_nil h1) Hw (fun x => x)) as Hf.
+    pose proof (Hun [] h1 w HI1 (detached_nil h1) Hpre (fun x => x) (fun _ _ _ (x : In root []) => x) h1 eq_refl) as Hu.
+    pose proof (Huf [] h1 w c HI1 (detached_nil h1) Hw (fun x => x) (fun _ (x : In root []) => x)) as Hf.
     destruct (unref fixed f w h1) as [u h2| |]; [|contradiction|exact I].
     destruct Hu as [_ [_ Sh]]. destruct Hf as [F1 F2].
     split; [rewrite (sh_nextw h1 h2 Sh); exact Hnw1|].
@@ -106,7 +106,7 @@ Proof.
     + intro Er. intro x. pose proof (F2 Er x) as G. rewrite Fw1 in G. exact G.
   - (* OClose *)
     rewrite <- Fw1 in Hpre. destruct (live_some h1 w Hpre) as [cw Hw].
-    pose proof (close_spec [] f w cw h1 HI1 Hw h1 eq_refl) as Hc.
+    pose proof (close_spec [] f w cw h1 HI1 Hw (fun _ (x : In root []) => x) h1 eq_refl) as Hc.
     destruct (close fixed f w h1) as [u h2| |]; [|contradiction|exact I].
     destruct Hc as [_ [WK [_ [_ [[cw' [G1 [G2 [_ [_ G5]]]]] Hex]]]]].
     split; [rewrite (wk_nextw h1 h2 WK); exact Hnw1|]. split; [|split].
